@@ -355,6 +355,122 @@ pub fn case_threads(bytes: &[u8], _s: &[u8], ctx: &mut Ctx) -> Result<(), Fail> 
     Ok(())
 }
 
+/// Schedule lane: recorder threads record uniquely tagged histogram values on one shared debugging recorder
+/// while another thread takes snapshots, interleaved at the bucket's atomic steps; afterwards one more
+/// snapshot at quiescence. Every tag must appear in exactly one snapshot, and a value whose record() call
+/// had returned before a snapshot began must be in that snapshot or an earlier one.
+pub fn case_sched(bytes: &[u8], sched_bytes: &[u8], ctx: &mut Ctx) -> Result<(), Fail> {
+    use crate::engine::sched::{self, SchedOpts};
+    use std::sync::Mutex;
+    static SMETA: Metadata<'static> = Metadata::new("c19sched", Level::INFO, None);
+    let mut src = Source::new(bytes);
+    let nr = 1 + src.below(2);
+    let mut tag = 1u32;
+    let recorders: Vec<Vec<u32>> = (0..nr)
+        .map(|_| {
+            (0..1 + src.below(4))
+                .map(|_| {
+                    let t = tag;
+                    tag += 1;
+                    t
+                })
+                .collect()
+        })
+        .collect();
+    let nsnap = 1 + src.below(3);
+    ctx.case(&(&recorders, nsnap, sched_bytes));
+    let rec = DebuggingRecorder::new();
+    let snap = rec.snapshotter();
+    let key = Key::from_name("h");
+    #[derive(Debug)]
+    enum Ev {
+        RecStart(u32),
+        RecEnd(u32),
+        SnapStart(usize),
+        SnapEnd(usize, Vec<u32>),
+    }
+    let events: Mutex<Vec<Ev>> = Mutex::new(vec![]);
+    let values_of = |v: Vec<(metrics_util::CompositeKey, Option<Unit>, Option<metrics::SharedString>, DebugValue)>| -> Vec<u32> {
+        v.into_iter().filter_map(|(_, _, _, d)| if let DebugValue::Histogram(vs) = d { Some(vs.into_iter().map(|x| x.0 as u32).collect::<Vec<_>>()) } else { None }).flatten().collect()
+    };
+    let mut bodies: Vec<Box<dyn FnOnce() + Send + '_>> = Vec::new();
+    for ops in &recorders {
+        let (rec, events, key) = (&rec, &events, &key);
+        bodies.push(Box::new(move || {
+            for t in ops {
+                events.lock().unwrap().push(Ev::RecStart(*t));
+                rec.register_histogram(key, &SMETA).record(*t as f64);
+                events.lock().unwrap().push(Ev::RecEnd(*t));
+                sched::point("c19.op_done");
+            }
+        }));
+    }
+    {
+        let (snap, events, values_of) = (&snap, &events, &values_of);
+        bodies.push(Box::new(move || {
+            for i in 0..nsnap {
+                events.lock().unwrap().push(Ev::SnapStart(i));
+                let vals = values_of(snap.snapshot().into_vec());
+                events.lock().unwrap().push(Ev::SnapEnd(i, vals));
+                sched::point("c19.snap_done");
+            }
+        }));
+    }
+    // the bucket's own known window (C05: a push that selected its block before a clear detached it) is fused
+    let fuse = vec![("bucket.push.tail_loaded", "block.push.claimed"), ("bucket.push.new_tail_cas_ok", "block.push.claimed")];
+    ctx.excluded = Some("known-window-fused:C05-lost-push-into-detached-block");
+    let out = sched::explore(sched_bytes, SchedOpts { fuse, max_steps: 6000, ..Default::default() }, bodies);
+    if out.budget_exhausted {
+        ctx.discard = true;
+        return Ok(());
+    }
+    ensure!(out.panics.is_empty(), "panic-in-thread", "{:?}", out.panics);
+    ensure!(!out.livelock, "observer-livelock", "snapshot spins forever; trace tail {:?}", out.trace.iter().rev().take(8).collect::<Vec<_>>());
+    let last = values_of(snap.snapshot().into_vec());
+    let mut evs = events.into_inner().unwrap();
+    evs.push(Ev::SnapStart(nsnap));
+    evs.push(Ev::SnapEnd(nsnap, last));
+    let mut seen_in: std::collections::HashMap<u32, usize> = Default::default();
+    let mut completed: Vec<u32> = vec![];
+    let mut completed_at_start: Vec<u32> = vec![];
+    let (mut in_snap, mut overlap, mut started) = (false, false, 0usize);
+    for e in &evs {
+        match e {
+            Ev::RecStart(_) => {
+                started += 1;
+                overlap |= in_snap;
+            }
+            Ev::RecEnd(t) => {
+                completed.push(*t);
+                overlap |= in_snap;
+            }
+            Ev::SnapStart(_) => {
+                in_snap = true;
+                completed_at_start = completed.clone();
+                overlap |= started > completed.len();
+            }
+            Ev::SnapEnd(i, vals) => {
+                in_snap = false;
+                for v in vals {
+                    ensure!(seen_in.insert(*v, *i).is_none(), "histogram-value-in-two-snapshots", "value {} appears in snapshot {} and again in snapshot {} (or twice in one); trace {:?}", v, seen_in[v], i, out.trace);
+                }
+                for t in &completed_at_start {
+                    ensure!(seen_in.contains_key(t), "snapshot-misses-completed-value", "value {} was recorded (record() had returned) before snapshot {} began, but neither it nor an earlier snapshot holds it; trace {:?}", t, i, out.trace);
+                }
+            }
+        }
+    }
+    let all: Vec<u32> = recorders.iter().flatten().copied().collect();
+    for t in &all {
+        ensure!(seen_in.contains_key(t), "histogram-values-not-exactly-once", "value {} was recorded but no snapshot (not even the one at quiescence) holds it; trace {:?}", t, out.trace);
+    }
+    ensure!(seen_in.len() == all.len(), "histogram-value-never-recorded", "snapshots hold {:?}, recorded were {:?}", seen_in.keys().collect::<Vec<_>>(), all);
+    if overlap {
+        ctx.nontrivial("snapshot-overlaps-record");
+    }
+    Ok(())
+}
+
 /// Free-running stress: several threads share ONE debugging recorder and make the first registration of the
 /// same fresh key at the same moment, each updating through the handle it was given; the snapshot taken at
 /// quiescence must show one entry holding every update, and the next one no histogram values.
@@ -464,6 +580,7 @@ pub fn run(cfg: &RunCfg, replay: Option<&str>) -> i32 {
     let mut pr = PropRun::new("C19", cfg, RULE);
     pr.register("direct-histories", &case_direct);
     pr.register("local-recorders-on-threads", &case_threads);
+    pr.register("schedules", &case_sched);
     if let Some(f) = replay {
         return pr.replay(f);
     }
@@ -475,6 +592,8 @@ pub fn run(cfg: &RunCfg, replay: Option<&str>) -> i32 {
     let r = run_lane(&c, "C19", &Lane { name: "direct-histories", cases: c.cases(500_000, 15_000_000), max_len: 200, sched_len: 0, workers: 0, f: &case_direct });
     pr.push(r);
     let r = run_lane(&c, "C19", &Lane { name: "local-recorders-on-threads", cases: c.cases(30_000, 1_000_000), max_len: 400, sched_len: 0, workers: 0, f: &case_threads });
+    pr.push(r);
+    let r = run_lane(&c, "C19", &Lane { name: "schedules", cases: c.cases(300_000, 8_000_000), max_len: 24, sched_len: 96, workers: 0, f: &case_sched });
     pr.push(r);
     let r = stress_shared(&pr);
     pr.push(r);
